@@ -141,6 +141,28 @@ func c11Setup(c *core.Case) *c11World {
 		class := c.Weighted("addr.class", 5, 4, 3, 3, 2, 1)
 		tail := c.Int("addr.tail", 1, 40)
 		a := c11GenAddr(c, self, ownPrefix.Bits(), class, tail)
+		if edge := c.Weighted("addr.edge", 10, 1, 1); edge > 0 {
+			// The very last (or very first) address of the routing prefix the
+			// address falls in.
+			for _, rp := range prefixes {
+				if rp.BasePrefix.Contains(a) && rp.RoutingBits > 0 && rp.RoutingBits < 128 {
+					b := a.As16()
+					for bit := rp.RoutingBits; bit < 128; bit++ {
+						if edge == 1 {
+							b[bit/8] |= 0x80 >> (bit % 8)
+						} else {
+							b[bit/8] &^= 0x80 >> (bit % 8)
+						}
+					}
+					if edge == 2 {
+						b[15] |= 1 // (the base address itself is not a router address)
+					}
+					a = netip.AddrFrom16(b)
+					c.Class(fmt.Sprintf("universe/address-at-the-edge-of-its-routing-prefix-%d", edge))
+					break
+				}
+			}
+		}
 		if !seen[a] {
 			seen[a] = true
 			w.universe = append(w.universe, a)
